@@ -545,6 +545,16 @@ class AgentSet(MutableSet, Sequence):
         """
         self.random = state["random"]
         self._update(state["agents"])
+        # The set holds its members weakly: they are owned by their model.  When a set is copied or
+        # unpickled on its own, nothing but the restored members references the restored model(s), so the
+        # set keeps them alive - otherwise all its members vanish at the next garbage collection.
+        self._restored_models = list(
+            {
+                id(model): model
+                for agent in state["agents"]
+                if (model := getattr(agent, "model", None)) is not None
+            }.values()
+        )
 
     def groupby(self, by: Callable | str, result_type: str = "agentset") -> GroupBy:
         """Group agents by the specified attribute or return from the callable.
